@@ -401,7 +401,7 @@ pub fn run(tier: Tier) -> (Acc, Vec<Value>) {
     // String
     {
         let mut pool: Pool<String> = Pool::new("String");
-        parse_lens_into(&mut pool, &[("A1a", dn(3, 4)), ("A1b", dn(3, 4)), ("A5b", dn(3, 4)), ("A6", dn(3, 4)), ("A3", dn(3, 4)), ("A10", dn(2, 3))], None);
+        parse_lens_into(&mut pool, &[("A1a", dn(3, 4)), ("A1b", dn(3, 4)), ("A5b", dn(3, 4)), ("A6", dn(3, 4)), ("A3", dn(3, 4)), ("A10", dn(2, 3)), ("A5a", dn(4, 5)), ("A17", dn(2, 3))], None);
         build_product_into(&mut pool, &["t", "T.1+x-"], |ty, _| Some(ty.to_owned()), tier);
         build_near_into(&mut pool, &["t"], |ty, _| Some(ty.to_owned()));
         build_spec_urls_into(&mut pool, &["cargo", "gem", "golang", "maven", "npm", "nuget", "pypi", "NPM"], |ty, _| Some(ty.to_owned()));
